@@ -185,7 +185,7 @@ class Driver:
         return self.proc.stdout.readline().decode("utf-8", "replace").rstrip("\n")
 
     def configure(self, cfg):
-        if self.proc is None or cfg.level != self.level:
+        if self.proc is None or self.proc.poll() is not None or cfg.level != self.level:
             self.level = cfg.level
             self.cfg = cfg
             self.start()
